@@ -246,4 +246,16 @@ func init() {
 			ruleBIND2(c)
 		},
 	})
+
+	register(&PropSpec{
+		ID:    "C17",
+		Level: "other",
+		Explanation: "Every constraint listed in the statement has an enforcing site that is found semantically (an error logged under the condition that detects the fault, in the function responsible), 33 sites in all: uniqueness through the single name table from all five declaring node types, naming rules before registration, undefined / wrong-kind references, unknown / ambiguous / empty literals, the alias condition (single literal without cardinality), macro cycles, exactly one @start, @discard/@emit placement, class range order, @list parameter shape (WF-1); every Errorf of internal/ast and internal/parser is positioned at the declaration under check (receiver, parameter or token), whose type some front-end action returns so that it has bounds (WF-2); analysis stops after a failing pass / file (WF-3). " +
+			"NOT decided: that well-formed specifications are never rejected (only the alias condition and reserved names are checked from that side); exact line:column values.",
+		Run: func(c *Ctx) {
+			ruleWF1(c)
+			ruleWF2(c)
+			ruleWF3(c)
+		},
+	})
 }
